@@ -245,6 +245,131 @@ _OBJECT_VARIANTS = [
       (N, _SB_CALL, '\tgenDesc := getDescriptorFunc(ctx, blobReader, signBlobOpts.ContentMediaType, signBlobOpts.UserMetadata)\n\tgetDescFunc := func(hashAlgo digest.Algorithm) (ocispec.Descriptor, error) {\n\t\tdesc, err := genDesc(hashAlgo)\n\t\tdesc.MediaType, _, _ = strings.Cut(desc.MediaType, ";")\n\t\treturn desc, err\n\t}\n')]),
 ]
 
+# ======== third pass ========
+# (9) CLASS "a finite table written as a map literal / as a function of the key": the crypto.Hash -> digest.Algorithm
+#     relation of the signer / the verifier is a package-level map, a switch or if-chain function (digest.Algorithm, bool),
+#     a function returning (digest.Algorithm, error) or just digest.Algorithm, a wrapper over the map, or one function shared
+#     through another package; the application of the table stands next to the generator invocation or in a module helper.
+V = 'verifier/verifier.go'
+ENVF = 'internal/envelope/envelope.go'
+_MAP = 'var algorithms = map[crypto.Hash]digest.Algorithm{\n\tcrypto.SHA256: digest.SHA256,\n\tcrypto.SHA384: digest.SHA384,\n\tcrypto.SHA512: digest.SHA512,\n}\n'
+def _SWITCH(name, tail='\treturn "", false\n', c384='digest.SHA384', c512='\tcase crypto.SHA512:\n\t\treturn digest.SHA512, true\n'):
+    return ('func %s(hash crypto.Hash) (digest.Algorithm, bool) {\n\tswitch hash {\n\tcase crypto.SHA256:\n\t\treturn digest.SHA256, true\n'
+            '\tcase crypto.SHA384:\n\t\treturn %s, true\n%s\t}\n%s}\n') % (name, c384, c512, tail)
+_IFCHAIN = ('func digestOf(h crypto.Hash) (digest.Algorithm, bool) {\n\tvar found digest.Algorithm\n\tif h == crypto.SHA256 {\n\t\tfound = digest.SHA256\n\t} else if h == crypto.SHA384 {\n'
+            '\t\tfound = digest.SHA384\n\t} else if h == crypto.SHA512 {\n\t\tfound = digest.SHA512\n\t}\n\treturn found, found != ""\n}\n')
+_ERRFN = ('func digestOf(h crypto.Hash) (digest.Algorithm, error) {\n\tswitch h {\n\tcase crypto.SHA256:\n\t\treturn digest.SHA256, nil\n\tcase crypto.SHA384:\n\t\treturn digest.SHA384, nil\n'
+          '\tcase crypto.SHA512:\n\t\treturn digest.SHA512, nil\n\t}\n\treturn "", fmt.Errorf("unknown hashing algo %v", h)\n}\n')
+_ONEFN = ('func digestOf(h crypto.Hash) digest.Algorithm {\n\tswitch h {\n\tcase crypto.SHA256:\n\t\treturn digest.SHA256\n\tcase crypto.SHA384:\n\t\treturn digest.SHA384\n'
+          '\tcase crypto.SHA512:\n\t\treturn digest.SHA512\n\t}\n\treturn ""\n}\n')
+_V_USE = '\tdigestAlgo, ok := algorithms[cryptoHash]\n'
+_S_USE = '\tdigestAlg, ok := algorithms[ks.SignatureAlgorithm().Hash()]\n'
+_S_MISS = '\tif !ok {\n\t\treturn ocispec.Descriptor{}, fmt.Errorf("unknown hashing algo %v", ks.SignatureAlgorithm().Hash())\n\t}\n'
+_S_BODY = _S_USE + _S_MISS + '\treturn genDesc(digestAlg)\n'
+def _V_FN(fn=None, use='\tdigestAlgo, ok := digestAlgorithm(cryptoHash)\n'):
+    return [(V, _MAP, fn or _SWITCH('digestAlgorithm')), (V, _V_USE, use)]
+def _S_FN(fn=_IFCHAIN, body=None):
+    return [(SP, _MAP, fn), (S, _S_BODY, body or _S_BODY.replace('algorithms[ks.SignatureAlgorithm().Hash()]', 'digestOf(ks.SignatureAlgorithm().Hash())'))]
+_S_ERR_BODY = '\tdigestAlg, err := digestOf(ks.SignatureAlgorithm().Hash())\n\tif err != nil {\n\t\treturn ocispec.Descriptor{}, err\n\t}\n\treturn genDesc(digestAlg)\n'
+_S_ONE_BODY = '\tdigestAlg := digestOf(ks.SignatureAlgorithm().Hash())\n\tif digestAlg == "" {\n\t\treturn ocispec.Descriptor{}, fmt.Errorf("unknown hashing algo %v", ks.SignatureAlgorithm().Hash())\n\t}\n\treturn genDesc(digestAlg)\n'
+_WRAP = _MAP + '\nfunc lookupDigest(h crypto.Hash) (digest.Algorithm, bool) {\n\ta, known := algorithms[h]\n\treturn a, known\n}\n'
+# the lookup moved into a helper that is handed the key spec (extraction at another boundary)
+_KS_HELPER = ('func digestAlgorithmFor(ks signature.KeySpec) (digest.Algorithm, error) {\n\thash := ks.SignatureAlgorithm().Hash()\n\talg, ok := algorithms[hash]\n\tif !ok {\n'
+              '\t\treturn "", fmt.Errorf("unknown hashing algo %v", hash)\n\t}\n\treturn alg, nil\n}\n\n')
+_KS_BODY = '\tdigestAlg, err := digestAlgorithmFor(ks)\n\tif err != nil {\n\t\treturn ocispec.Descriptor{}, err\n\t}\n\treturn genDesc(digestAlg)\n'
+def _KS(helper=_KS_HELPER, body=_KS_BODY):
+    return [(SP, _MAP, _MAP + '\n' + helper), (S, _S_BODY, body)]
+# one exported function in internal/envelope serves both packages
+_SHARED = [
+ (ENVF, 'import (\n\t"errors"\n', 'import (\n\t"crypto"\n\t"errors"\n'),
+ (ENVF, '\tocispec "github.com/opencontainers/image-spec/specs-go/v1"\n)\n', '\tocispec "github.com/opencontainers/image-spec/specs-go/v1"\n\t"github.com/opencontainers/go-digest"\n)\n\n' + _SWITCH('DigestAlgorithm').replace('%', '%%')),
+ (SP, _MAP, 'var _ = crypto.SHA256\nvar _ = digest.SHA256\n'),
+ (V, _MAP, 'var _ = crypto.SHA256\nvar _ = digest.SHA256\n'),
+ (S, _S_USE, '\tdigestAlg, ok := envelope.DigestAlgorithm(ks.SignatureAlgorithm().Hash())\n'),
+ (V, _V_USE, '\tdigestAlgo, ok := envelope.DigestAlgorithm(cryptoHash)\n'),
+]
+_TABLE_VARIANTS = [
+ dict(name='benign-verifier-table-switch-function', expect='silent', edits=_V_FN()),
+ dict(name='benign-both-tables-functions', expect='silent', edits=_V_FN() + _S_FN()),
+ dict(name='benign-signer-table-function-error', expect='silent', edits=_S_FN(fn=_ERRFN, body=_S_ERR_BODY)),
+ dict(name='benign-signer-table-function-single-result', expect='silent', edits=_S_FN(fn=_ONEFN, body=_S_ONE_BODY)),
+ dict(name='benign-verifier-table-wrapper-over-map', expect='silent', edits=[(V, _MAP, _WRAP), (V, _V_USE, '\tdigestAlgo, ok := lookupDigest(cryptoHash)\n')]),
+ dict(name='benign-signer-lookup-in-keyspec-helper', expect='silent', edits=_KS()),
+ dict(name='benign-signer-keyspec-helper-over-function', expect='silent', edits=[(SP, _MAP, _IFCHAIN + '\n' + _KS_HELPER.replace('algorithms[hash]', 'digestOf(hash)')), (S, _S_BODY, _KS_BODY)]),
+ dict(name='benign-table-shared-function', expect='silent', edits=_SHARED),
+ # the same shapes with the property broken
+ dict(name='verifier-table-function-384-is-512', expect='flagged(tables/hash-to-digest-algorithm)', edits=_V_FN(fn=_SWITCH('digestAlgorithm', c384='digest.SHA512'))),
+ dict(name='verifier-table-function-missing-512', expect='flagged(tables/)', edits=_V_FN(fn=_SWITCH('digestAlgorithm', c512=''))),
+ dict(name='verifier-table-function-unknown-hash-found', expect='flagged(tables/hash-to-digest-algorithm)', edits=_V_FN(fn=_SWITCH('digestAlgorithm', tail='\treturn digest.SHA256, true\n'))),
+ dict(name='verifier-table-function-miss-yields-sha256', expect='flagged(tables/hash-to-digest-algorithm)', edits=_V_FN(fn=_SWITCH('digestAlgorithm', tail='\treturn digest.SHA256, false\n'))),
+ dict(name='verifier-table-function-depends-on-more', expect='flagged(tables/)', edits=_V_FN(
+      fn=_SWITCH('digestAlgorithm').replace('\tswitch hash {\n', '\tif hash == crypto.SHA384 && time.Now().Unix()%2 == 0 {\n\t\treturn digest.SHA512, true\n\t}\n\tswitch hash {\n'))),
+ dict(name='verifier-table-function-constant-key', expect='flagged(blob-descriptor/generator-call)', edits=_V_FN(
+      use='\tdigestAlgo, ok := digestAlgorithm(crypto.SHA256)\n')),
+ dict(name='verifier-generator-gets-other-function', expect='flagged(blob-descriptor/generator-call)', edits=_V_FN(
+      fn=_SWITCH('digestAlgorithm') + '\nfunc preferred(alg digest.Algorithm) digest.Algorithm {\n\tif alg == digest.SHA384 {\n\t\treturn digest.SHA512\n\t}\n\treturn alg\n}\n') + [
+      (V, '\tdesc, err := descGenFunc(digestAlgo)\n', '\tdesc, err := descGenFunc(preferred(digestAlgo))\n')]),
+ dict(name='signer-table-function-answer-ignored', expect='flagged(payload/blob-digest-algorithm/lookup)', edits=_S_FN(
+      body='\tdigestAlg, _ := digestOf(ks.SignatureAlgorithm().Hash())\n\treturn genDesc(digestAlg)\n')),
+ dict(name='signer-table-function-error-ignored', expect='flagged(payload/blob-digest-algorithm/lookup)', edits=_S_FN(fn=_ERRFN,
+      body='\tdigestAlg, err := digestOf(ks.SignatureAlgorithm().Hash())\n\tif err != nil {\n\t\tdigestAlg, _ = digestOf(crypto.SHA256)\n\t}\n\treturn genDesc(digestAlg)\n')),
+ dict(name='signer-table-function-zero-not-tested', expect='flagged(payload/blob-digest-algorithm/lookup)', edits=_S_FN(fn=_ONEFN,
+      body='\tdigestAlg := digestOf(ks.SignatureAlgorithm().Hash())\n\treturn genDesc(digestAlg)\n')),
+ dict(name='signer-table-function-sha256-always', expect='flagged(payload/blob-digest-algorithm/lookup)', edits=_S_FN(
+      body=_S_BODY.replace('algorithms[ks.SignatureAlgorithm().Hash()]', 'digestOf(crypto.SHA256)'))),
+ dict(name='signer-two-tables-disagree', expect='flagged(tables/)', edits=_S_FN(
+      fn=_IFCHAIN + '\nfunc legacyDigestOf(h crypto.Hash) (digest.Algorithm, bool) {\n\treturn digest.SHA256, h == crypto.SHA256 || h == crypto.SHA384 || h == crypto.SHA512\n}\n',
+      body=_S_BODY.replace('algorithms[ks.SignatureAlgorithm().Hash()]', 'legacyDigestOf(ks.SignatureAlgorithm().Hash())'))),
+ dict(name='verifier-wrapper-map-rewritten-at-init', expect='flagged(tables/)', edits=[
+      (V, _MAP, _WRAP + '\nfunc init() {\n\talgorithms[crypto.SHA384] = digest.SHA512\n}\n'), (V, _V_USE, '\tdigestAlgo, ok := lookupDigest(cryptoHash)\n')]),
+ dict(name='verifier-wrapper-defaults-on-miss', expect='flagged(tables/)', edits=[
+      (V, _MAP, _WRAP.replace('\treturn a, known\n', '\tif !known {\n\t\treturn digest.SHA256, true\n\t}\n\treturn a, known\n')), (V, _V_USE, '\tdigestAlgo, ok := lookupDigest(cryptoHash)\n')]),
+ dict(name='signer-keyspec-helper-miss-passes', expect='flagged(payload/blob-digest-algorithm/lookup)', edits=_KS(
+      helper=_KS_HELPER.replace('\tif !ok {\n\t\treturn "", fmt.Errorf("unknown hashing algo %v", hash)\n\t}\n', '\t_ = ok\n'))),
+ dict(name='signer-keyspec-helper-error-ignored', expect='flagged(payload/blob-digest-algorithm/lookup)', edits=_KS(
+      body='\tdigestAlg, _ := digestAlgorithmFor(ks)\n\treturn genDesc(digestAlg)\n')),
+ dict(name='signer-keyspec-helper-fixed-hash', expect='flagged(payload/blob-digest-algorithm/lookup)', edits=_KS(
+      helper=_KS_HELPER.replace('hash := ks.SignatureAlgorithm().Hash()', 'hash := crypto.SHA256'))),
+ dict(name='signer-keyspec-helper-generator-skipped', expect='flagged(payload/blob-digest-algorithm)', edits=_KS(
+      body='\tdigestAlg, err := digestAlgorithmFor(ks)\n\tif err != nil {\n\t\treturn ocispec.Descriptor{}, err\n\t}\n\tif digestAlg == "sha512" {\n\t\treturn ocispec.Descriptor{}, nil\n\t}\n\treturn genDesc(digestAlg)\n')),
+ dict(name='shared-function-384-is-256', expect='flagged(tables/hash-to-digest-algorithm-total)', edits=[
+      (e[0], e[1], e[2].replace('return digest.SHA384, true', 'return digest.SHA256, true')) for e in _SHARED]),
+ dict(name='map-table-rewritten-at-init', file=SP, expect='flagged(tables/)', find=_MAP, replace=_MAP + '\nfunc init() {\n\talgorithms[crypto.SHA384] = digest.SHA512\n}\n'),
+]
+# the verifier's lookup extracted into a helper that is handed the envelope content
+_V_BLOCK = ('\tcryptoHash := outcome.EnvelopeContent.SignerInfo.SignatureAlgorithm.Hash()\n\tdigestAlgo, ok := algorithms[cryptoHash]\n\tif !ok {\n\t\tlogger.Error("Unsupported hashing algorithm: %v", cryptoHash)\n'
+            '\t\terr := fmt.Errorf("unsupported hashing algorithm: %v", cryptoHash)\n\t\toutcome.Error = err\n\t\treturn outcome, err\n\t}\n')
+_V_BLOCK_HELPER = ('\tdigestAlgo, err := digestAlgorithmOf(outcome.EnvelopeContent)\n\tif err != nil {\n\t\tlogger.Error("Unsupported hashing algorithm: %v", outcome.EnvelopeContent.SignerInfo.SignatureAlgorithm.Hash())\n'
+                   '\t\toutcome.Error = err\n\t\treturn outcome, err\n\t}\n')
+_V_HELPER = ('\nfunc digestAlgorithmOf(content *signature.EnvelopeContent) (digest.Algorithm, error) {\n\tcryptoHash := content.SignerInfo.SignatureAlgorithm.Hash()\n\tif alg, ok := algorithms[cryptoHash]; ok {\n'
+             '\t\treturn alg, nil\n\t}\n\treturn "", fmt.Errorf("unsupported hashing algorithm: %v", cryptoHash)\n}\n')
+_TABLE_VARIANTS += [
+ dict(name='benign-verifier-lookup-in-content-helper', expect='silent', edits=[(V, _MAP, _MAP + _V_HELPER), (V, _V_BLOCK, _V_BLOCK_HELPER)]),
+ dict(name='benign-verifier-content-helper-over-switch-function', expect='silent', edits=[
+      (V, _MAP, _SWITCH('digestAlgorithm') + _V_HELPER.replace('algorithms[cryptoHash]', 'digestAlgorithm(cryptoHash)')), (V, _V_BLOCK, _V_BLOCK_HELPER)]),
+ dict(name='verifier-content-helper-defaults-on-miss', expect='flagged(blob-descriptor/generator-call)', edits=[
+      (V, _MAP, _MAP + _V_HELPER.replace('\treturn "", fmt.Errorf("unsupported hashing algorithm: %v", cryptoHash)\n', '\treturn digest.SHA256, nil\n')), (V, _V_BLOCK, _V_BLOCK_HELPER)]),
+ dict(name='verifier-content-helper-fixed-hash', expect='flagged(blob-descriptor/generator-call)', edits=[
+      (V, _MAP, _MAP + _V_HELPER.replace('content.SignerInfo.SignatureAlgorithm.Hash()', 'crypto.SHA256; _ = content')), (V, _V_BLOCK, _V_BLOCK_HELPER)]),
+]
+# getDescriptor written out in GenericSigner.SignBlob (the function obtains the key spec itself instead of being handed it)
+_G_CALL = '\tdesc, err := getDescriptor(ks, genDesc)\n'
+def _G_INLINE(use=_S_USE, miss='\tif !ok {\n\t\treturn nil, nil, fmt.Errorf("unknown hashing algo %v", ks.SignatureAlgorithm().Hash())\n\t}\n'):
+    return use + miss + '\tdesc, err := genDesc(digestAlg)\n'
+_TABLE_VARIANTS += [
+ dict(name='benign-getdescriptor-inlined', file=S, expect='silent', find=_G_CALL, replace=_G_INLINE()),
+ dict(name='benign-getdescriptor-inlined-switch-function', expect='silent', edits=_S_FN() + [
+      (S, _G_CALL, _G_INLINE(use='\tdigestAlg, ok := digestOf(ks.SignatureAlgorithm().Hash())\n'))]),
+ dict(name='getdescriptor-inlined-miss-ignored', file=S, expect='flagged(payload/blob-digest-algorithm/lookup)', find=_G_CALL, replace=_G_INLINE(miss='\t_ = ok\n')),
+ dict(name='getdescriptor-inlined-literal-keyspec', file=S, expect='flagged(payload/blob-digest-algorithm/lookup)', find=_G_CALL,
+      replace='\tks = signature.KeySpec{Type: signature.KeyTypeRSA, Size: 2048}\n' + _G_INLINE()),
+ dict(name='getdescriptor-inlined-fixed-hash', file=S, expect='flagged(payload/blob-digest-algorithm/lookup)', find=_G_CALL,
+      replace=_G_INLINE(use='\tdigestAlg, ok := algorithms[crypto.SHA256]\n')),
+ dict(name='getdescriptor-inlined-keyspec-error-ignored', file=S, expect='flagged(payload/blob-digest-algorithm/lookup)',
+      find='\tks, err := s.signer.KeySpec()\n\tif err != nil {\n\t\treturn nil, nil, err\n\t}\n' + _G_CALL,
+      replace='\tks, _ := s.signer.KeySpec()\n' + _G_INLINE()),
+]
+
 VARIANTS = [
  dict(name='F11-reintroduced', file=N, expect='flagged(reader/)',
       find='''	var payload envelope.Payload
@@ -400,4 +525,4 @@ VARIANTS = [
  # ======== second pass: classes of rewrites rather than single shapes ========
  # (5) CLASS "value computed by a module helper / parameter narrowed or widened": the expiry is the result of a helper that is
  #     handed the signing time and the duration (or the options, or the request), or a helper stores it into the request
-] + _EXPIRY_VARIANTS + _RETURN_VARIANTS + _OBJECT_VARIANTS + _CTOR_VARIANTS
+] + _EXPIRY_VARIANTS + _RETURN_VARIANTS + _OBJECT_VARIANTS + _CTOR_VARIANTS + _TABLE_VARIANTS
